@@ -1,5 +1,4 @@
 SPECIFICATION Spec
-CONSTANTS MaxBlocks = 3 MaxRecs = 2 DeferCbError = FALSE
+CONSTANTS MaxBlocks = 3 MaxRecs = 2 DeferCbError = TRUE
 INVARIANTS DeliveredInOrder NoRecordOfRejectedBlock AtEnd
-PROPERTY Terminates
 CHECK_DEADLOCK FALSE
